@@ -10,9 +10,9 @@ package main
 
 import (
 	"fmt"
-	"os"
 	"go/token"
 	"go/types"
+	"os"
 	"strings"
 
 	"golang.org/x/tools/go/ssa"
@@ -29,7 +29,7 @@ type Taint struct {
 	// apiRoots: entry points whose parameters are peer-controlled (library API
 	// handed peer data directly, e.g. Parse*RvInfo, Unmarshal, Verify)
 	apiRoots map[*ssa.Function]bool
-	changed bool
+	changed  bool
 }
 
 // untaintedResult: calls whose results are trusted regardless of arguments.
